@@ -8,12 +8,15 @@
 // quick, exhaustive 2^32 in thorough (sharded); 64-bit types (incl. double): byte-lane patterns,
 // class boundaries, NaN payloads and rapidcheck-generated words.
 // Built without sanitizers (-O2): the sweeps are pure arithmetic.
+// The library header comes FIRST, before any standard header: a header that relies on macros some other
+// header happens to define (e.g. glibc's __BYTE_ORDER) must not change meaning with the include order.
+#include <nop/utility/endian.h>
+
 #include <cinttypes>
 #include <cstdio>
 #include <cstring>
 #include <functional>
 
-#include <nop/utility/endian.h>
 
 #include "kit/core.h"
 #include "kit/rcdrv.h"
